@@ -401,12 +401,45 @@ def rule_format_of_own_surface(prog, fixture=False):
     return r
 
 
+# ---------------------------------------------------------------- R-C13-10
+def rule_probe_ignores_bodies(prog, fixture=False):
+    r = RuleResult("R-C13-10", "identification never reads where the catalogue entries point: in the probing functions no "
+                   "read_block argument is computed from an entry's start_sector()/last_sector()/file_length() - what a "
+                   "file body holds, or whether it is there at all, cannot change the variant a disc is taken for",
+                   floor=0 if fixture else 3)
+    ENTRY_POS = {"start_sector", "last_sector", "file_length"}
+    for fn in prog.functions.values():
+        if not (fn.relfile() == "dfs/identify.cc" or fixture):
+            continue
+        for n in fn.walk():
+            if n.get("k") != "CXXMemberCallExpr" or (strip(n["c"][0]) or {}).get("n") != "read_block":
+                continue
+            key = "%s::%s::read_block#%d" % (fn.relfile(), fn.qn, len(r.instances) + 1)
+            bad = None
+            for a in call_args(n):
+                for x in walk(a):
+                    if x.get("k") == "CXXMemberCallExpr" and (strip(x["c"][0]) or {}).get("n") in ENTRY_POS and \
+                            "CatalogEntry" in notpl((strip(x["c"][0]) or {}).get("q") or ""):
+                        bad = x
+                    if x.get("k") == "DeclRefExpr" and x.get("dk") == "Var":
+                        for v in fn.walk():
+                            if v.get("k") == "VarDecl" and v.get("d") == x["d"] and v.get("c") and any(
+                                    y.get("k") == "CXXMemberCallExpr" and (strip(y["c"][0]) or {}).get("n") in ENTRY_POS
+                                    for y in walk(v["c"][0])):
+                                bad = v
+            r.add(key, fn.loc(n), bad is None, "sector number independent of the catalogue entries" if bad is None else
+                  "the probe reads a sector computed from a catalogue entry (`%s`): identification now depends on file bodies "
+                  "being present" % show(bad)[:50])
+    return r
+
+
 def run(ctx):
     from . import c01
     prog = ctx.prog("dfs", "N")
     return [rule_watford_guard(prog), rule_decision_table(prog), rule_probe_reads(prog), rule_opus_selfcheck(prog),
             rule_sides_from_hdfs_only(prog), c01.rule_opus_catalogue_slot(prog, rule_id="R-C13-6"),
-            rule_format_of_own_surface(prog), _shared_validator_rule(prog), _shared_table_walk(prog)]
+            rule_format_of_own_surface(prog), _shared_validator_rule(prog), _shared_table_walk(prog),
+            rule_probe_ignores_bodies(prog)]
 
 
 def _shared_table_walk(prog):
